@@ -147,8 +147,10 @@ pub fn run_case(_ctx: &Ctx, case: &Value, tag: usize, rep: &mut Report, mb: &mut
         if text.is_empty() { break; }
         let multi: Vec<u32> = text.iter().copied().filter(|t| wa.words[*t as usize].len() > 1).collect();
         let t = if !multi.is_empty() && rng.chance(2, 3) { *rng.pick(&multi) } else { *rng.pick(&text) };
-        if a.consume_token(t).is_err() {
-            rep.fail("oracle", "c02:commit-failed", format!("step {step}: masked token {t} rejected"), repro.clone());
+        if let Err(e) = a.consume_token(t) {
+            let cls = eng::err_class(&e.to_string());
+            if cls.contains("Too many items") { rep.skip("commit-hit-item-limit"); break; }
+            rep.fail("oracle", "c02:commit-failed", format!("step {step}: masked token {t} ({}) rejected: {cls}", hex_or_underscore(&wa.words[t as usize])), repro.clone());
             break;
         }
         toks_a.push(t);
